@@ -31,6 +31,7 @@ type ghostState struct {
 	frozen     map[*Value]string
 	private    map[*Value]bool
 	guards     map[*Value]*Value // guarded cell -> mutex cell
+	guardsAny  map[*Value]bool   // guarded cells whose accesses (atomic ones) only need the mutex in any mode
 	mapGuards  map[*Map]*Value   // guarded map -> mutex cell
 	atomicOp   int
 
@@ -59,7 +60,7 @@ type mutexState struct {
 func newGhostState() *ghostState {
 	return &ghostState{pools: map[*Value]*poolState{}, mutexes: map[*Value]*mutexState{}, onces: map[*Value]bool{},
 		released: map[*Value]string{}, shared: map[*Value]bool{}, sharedMaps: map[*Map]bool{}, frozen: map[*Value]string{},
-		private: map[*Value]bool{}, guards: map[*Value]*Value{}, mapGuards: map[*Map]*Value{}, vfs: newVFS()}
+		private: map[*Value]bool{}, guards: map[*Value]*Value{}, guardsAny: map[*Value]bool{}, mapGuards: map[*Map]*Value{}, vfs: newVFS()}
 }
 
 func (in *Interp) monAlloc(p *Value) {}
@@ -439,7 +440,7 @@ func (in *Interp) guardCheck(p *Value, write bool) {
 		return
 	}
 	ms := in.ghost.mutexes[mu]
-	held := ms != nil && (ms.locked || (!write && ms.readers > 0))
+	held := ms != nil && (ms.locked || ((!write || in.ghost.guardsAny[p]) && ms.readers > 0))
 	if !held {
 		in.X.assert(false, "guarded-access-without-lock")
 	}
